@@ -156,6 +156,56 @@ func runC16(w *World, r *Report) {
 	} else {
 		r.Undecided("C16-R7", "average", 0, "anchor not found")
 	}
+	// R8: a handler that waited for a forwarded channel records the pair it actually serves
+	r.Rule("C16-R8", "a rebound handler records its own pair", "replicateChannelManager.waitChannel: the pair given to AddKeyValue is read from the waiting handler's sourcePChannel / targetPChannel fields after the forwarded channel was stored into one of them (not the pair that was originally offered and refused)", 1)
+	if wc := w.Func(pkgReader, "replicateChannelManager", "waitChannel"); wc != nil {
+		n := 0
+		fam := familyOf(wc)
+		for _, g := range fam.Funcs {
+			eachInstr(g, func(in ssa.Instruction) {
+				c, ok := in.(*ssa.Call)
+				if !ok || callSym(c.Common()).name != "AddKeyValue" {
+					return
+				}
+				n++
+				args := callArgs(c.Common())
+				want := []string{"sourcePChannel", "targetPChannel"}
+				bad := ""
+				for i, a := range args {
+					if i > 1 {
+						break
+					}
+					ap := w.accessPath(a)
+					if !strings.HasSuffix(ap, "."+want[i]) {
+						bad = fmt.Sprintf("argument %d is %s, not the handler's %s", i, ap, want[i])
+						break
+					}
+					// the read follows the rebinding stores
+					ld, isLd := a.(*ssa.UnOp)
+					if !isLd {
+						continue
+					}
+					for _, in2 := range fam.allInstr {
+						st, isSt := in2.(*ssa.Store)
+						if !isSt || st.Parent() != g {
+							continue
+						}
+						if fa, isFA := st.Addr.(*ssa.FieldAddr); isFA && (fieldName(fa.X.Type(), fa.Field) == "sourcePChannel" || fieldName(fa.X.Type(), fa.Field) == "targetPChannel") {
+							if !instrReaches(st, ld) {
+								bad = "the pair is read before the forwarded channel is stored into the handler"
+							}
+						}
+					}
+				}
+				r.Check(bad == "", "C16-R8", fmt.Sprintf("(*replicateChannelManager).waitChannel | AddKeyValue#%d records the handler's own pair", n), c.Pos(), "(handler.sourcePChannel, handler.targetPChannel) read after the rebinding", bad+": the mapping table charges the channel that was full and does not know the pair really served, so the quota of the forwarded channel is not counted and the refused pair looks assigned")
+			})
+		}
+		if n == 0 {
+			r.Fail("C16-R8", "(*replicateChannelManager).waitChannel | AddKeyValue", wc.Pos(), "the waiting path no longer records its assignment")
+		}
+	} else {
+		r.Undecided("C16-R8", "waitChannel", 0, "anchor not found")
+	}
 	r.Rule("C16-R4", "assignments are append-only", "ChannelMapping's maps are written only in AddKeyValue/NewChannelMapping; no delete() or reassignment of channelHandlerMap / sourcePChannelKeyMap / ChannelMapping maps anywhere", 4)
 
 	mgr := w.Named(pkgReader, "replicateChannelManager")
